@@ -107,6 +107,14 @@ def gen_model(rng, depth, ctx):
 
 
 # ---- positions ----------------------------------------------------------------------------------------
+class _BadValueT:
+    def __repr__(self):
+        return "<bad value>"
+
+
+_BadValue = _BadValueT()      # an object no loader of the grammar accepts
+
+
 class Pos:
     """A place where one independent fault can be planted."""
     def __init__(self, trail, kind, apply, expect_trail=None, group=None, payload=None):
@@ -114,6 +122,7 @@ class Pos:
         self.expect_trail = tuple(expect_trail if expect_trail is not None else trail)
         self.group = group          # faults of one dict node that adaptix reports as ONE error (missing keys / unknown keys)
         self.payload = payload
+        self.also_expect = ()       # further independently invalid leaves planted by this one position (bad key AND bad value of one item)
 
     def __repr__(self):
         return f"{self.kind}@{list(self.trail)}"
@@ -163,6 +172,11 @@ def positions(node, datum, trail, strict, out, depth=0):  # noqa: C901, PLR0912,
         if node.key.kind == "int" and strict:
             # a key the key loader rejects: expected at ItemKey(key)
             out.append(Pos((*trail, "<badkey>"), "bad-dict-key", None, expect_trail=(*trail, ItemKey("bad key")), payload=("badkey", trail, _valid_value(node.val))))
+            if node.val.accept(_BadValue, strict).k == spec.R:
+                # ONE item whose key and value are both invalid: two independently invalid leaves (seeded change: ALL skipped the value)
+                p2 = Pos((*trail, "<badkey+value>"), "bad-dict-key-and-value", None, expect_trail=(*trail, ItemKey("bad key 2")), payload=("badkey2", trail, _BadValue))
+                p2.also_expect = ((*trail, "bad key 2"),)
+                out.append(p2)
         return None
     if node.is_model:
         lay = getattr(node, "lay", None)
@@ -247,12 +261,12 @@ def plant(valid, chosen):
             for el in tr:
                 cur = cur[el]
             cur["<unknown key>"] = 1
-        elif p.kind == "bad-dict-key":
+        elif p.kind in ("bad-dict-key", "bad-dict-key-and-value"):
             _, tr, val = p.payload
             cur = d
             for el in tr:
                 cur = cur[el]
-            cur["bad key"] = val
+            cur["bad key" if p.kind == "bad-dict-key" else "bad key 2"] = val
         else:
             setp(d, p.trail, p.apply)
     return d
@@ -267,6 +281,7 @@ def expected_trails(chosen):
                 continue
             seen.add(p.group)
         out.append(p.expect_trail)
+        out.extend(p.also_expect)
     return sorted(out, key=repr)
 
 
